@@ -14,10 +14,12 @@ TECHNIQUE = ('runtime monitoring: two-parser acceptance differential (grammar co
 RULE = ('texts: random grammars printed from the generator ASTs (all operators, repetition modifiers, link references with '
         'match rule / RREL, rule modifiers, comments), every .tx file and documentation grammar of the repository, targeted '
         'snippets over the full syntax (imports, references with aliases, rule parameters, RREL flags and fixed names, '
-        'modifier mixtures, digit-leading identifiers, qualified class names) and 1-3 token/character mutations of all of '
+        'modifier mixtures, digit-leading identifiers, qualified class names), templates that put every lexical class (plain / '
+        'dotted 1-3 times / digit-leading / unicode / keyword-like / empty identifiers, string and regex spellings) into every '
+        'syntactic position, and 1-3 token/character mutations of all of '
         'them. Oracle: textx.tx accepts (no TextXSyntaxError from grammar_model_from_str) iff the compiler\'s PEG parser '
         'accepts. distinct = text; non-trivial = accepted by at least one side and contains a reference, a modifier or RREL')
-REQUIRED = {'texts': 8000, 'accepted_by_both': 1500, 'rejected_by_both': 1500, 'targeted_snippets': 800}
+REQUIRED = {'texts': 8000, 'accepted_by_both': 1500, 'rejected_by_both': 1500, 'targeted_snippets': 800, 'template_texts': 3000}
 
 SNIPPETS = [
     "A: a=[B:ID]; B: name=ID;", "A: a=[B|ID]; B: name=ID;", "A: a=[B:ID|b]; B: name=ID b*=B;", "A: a=[B|ID|b]; B: name=ID b*=B;",
@@ -44,6 +46,39 @@ SNIPPETS = [
     "A: a=[B:ID|parent(1B)]; B: name=ID;", "A: a=[B:ID|1b]; B: name=ID;", "A: a=[B:1ID]; B: name=ID;", "A: a=[1B]; 1B: name=ID;",
     "A: a=INT[','];", "A: a?=INT[','];", "A: a=INT['a' 'b' eolterm 'c'];", "A: 'a'#;", "A: B#; B: 'b';", "A: a=OBJECT;", "OBJECT: 'a';",
 ]
+
+# every lexical class crossed with every syntactic position (templates filled from pools)
+IDENTS = ['B', 'x.B', 'a.b.C', 'a.b.c.D', '1B', 'B9', '_b', 'B\u00e9', 'b-c', 'B.', '.B', 'B..C', '', 'INT', 'INTx', 'ID', 'OBJECT', 'eolterm',
+          'skipws', 'ws', 'import', 'as', 'reference', 'parent', 'STRICTFLOAT', 'BASETYPE', 'NUMBERS', 'b_c', 'B C']
+STRS = ["'a'", '"a"', "''", '""', "'\\''", '"\\""', "'a b'", "'\\n'", "' '", "'/'", "'['", "'a", 'a"', "'\u00e9'", "'\\u00e9'"]
+REGS = ['/a/', '/\\//', '/[a-z]+/', '/ /', '//', '/a\\\\/', '/(a)/', '/a/ ', '/a', '/\\d+(\\.\\d+)?/']
+TEMPLATES = [
+    "{I}: 'x';", "A: {I};", "A: {I}*;", "A: {I}+[','];", "A: {I}-;", "A: {I}#;", "A: !{I} 'x';", "A: &{I} 'x';", "A: {I}={I};", "A: {I}+={I};",
+    "A: {I}*={I}[{S}];", "A: {I}?={S};", "A: a=[{I}];", "A: a=[{I}:{I}];", "A: a=[{I}|{I}];", "A: a=[{I}:{I}|{I}];", "A: a=[{I}|{I}|{I}];",
+    "A: a=[B:ID|{I}.{I}];", "A: a=[B:ID|~{I}];", "A: a=[B:ID|{S}~{I}];", "A: a=[B:ID|parent({I})];", "A: a=[B:ID|{I}*];", "A: a=[B:ID|({I},{I})*];",
+    "A: a=[B:ID|^{I}];", "A: a=[B:ID|+m:{I}];", "A: a=[B:ID|+{I}:b];", "A: a=[B:ID|..{I}];", "A: a=[B:ID|{I}..{I}];", "A: a=[B:ID|{I},{I}];",
+    "A[{I}]: 'x';", "A[{I}={S}]: 'x';", "A[{I}, {I}={S}]: 'x';", "A[{I}={I}]: 'x';", "import {I}\nA: 'x';", "import {I}\nimport {I}\nA: 'x';",
+    "reference {I}\nA: 'x';", "reference {I} as {I}\nA: 'x';", "A: a+=INT[{S}];", "A: a+=INT[{S} eolterm];", "A: a+=INT[eolterm {S}];",
+    "A: a+=INT[{R}];", "A: a+=INT[{I}];", "A: 'x'*[{S} {S}];", "A: {S};", "A: {R};", "A: a={S};", "A: a={R};", "A: {S}-;", "A: {R}-;", "A: {S} {R} {S};",
+    "A: ({S} | {R})*;", "A: {R}{R};", "A: {R} / {R};", "A: {S}{S};", "A: a={I} b={I};", "A: ({I} {I})#[{S}];", "A: a=[{I}]*;", "A: a*=[{I}][{S}];",
+    "A: a=[{I}:{I}|+mp:{I}.{I}*];", "A: a=[B:ID|+pm:{S}~{I}.~{I}];", "{I}: {I}; {I}: {I};", "A: 'x'; {I}", "A: 'x' // {I}\n;", "A: /* {I} */ 'x';",
+]
+
+
+def template_text(r):
+    t = r.choice(TEMPLATES)
+    out = []
+    for part in re.split(r'(\{[ISR]\})', t):
+        if part == '{I}':
+            out.append(r.choice(IDENTS))
+        elif part == '{S}':
+            out.append(r.choice(STRS))
+        elif part == '{R}':
+            out.append(r.choice(REGS))
+        else:
+            out.append(part)
+    return ''.join(out)
+
 
 _cache = {}
 
@@ -188,6 +223,9 @@ def one(ctx, i, rep=None):
         check(ctx, F.mutate_text(base, r), rep, kind + ' mutated', snippet=(kind == 'snippet'))
     s2 = r.choice(SNIPPETS)
     check(ctx, s2 + '\n' + r.choice(SNIPPETS), rep, 'two snippets', snippet=True)
+    for _ in range(3):
+        ctx.count('template_texts')
+        check(ctx, template_text(r), rep, 'template', snippet=True)
 
 
 def run(ctx):
